@@ -223,6 +223,7 @@ def _judge_writer(mol, smi, mon):
     for (a, b), bond in mol._bond_dict.items():
         want[(a, b) if a < b else (b, a)] = bond.order
     first_err = None
+    budget0 = mon.counts["M2.segmentation_budget"]
     for m in reads:
         err = _compare_graph(mol, m, want)
         if err is None:
@@ -231,6 +232,8 @@ def _judge_writer(mol, smi, mon):
             first_err = err
         if m.seg is None:
             break
+    if mon.counts["M2.segmentation_budget"] > budget0:
+        return      # search cut short: inconclusive for this call, never a verdict
     if first_err:
         mon.flag("M2", first_err + " :: " + smi[:160])
 
